@@ -78,6 +78,7 @@ type Node struct {
 	Fifo   bool       `json:"fifo,omitempty"`
 	Cap    int        `json:"cap,omitempty"` // 0 = none
 	Mutex  bool       `json:"mutex,omitempty"`
+	Vfail  bool       `json:"vfail,omitempty"`  // the Stack carries a validity policy that fails (Valid() is not what Defrag / Reveal / Transfer ask)
 	PreErr bool       `json:"preerr,omitempty"` // an error was stored (SetErr) before the operation under test
 	ID     string     `json:"id,omitempty"`
 	Els    []*Node    `json:"els,omitempty"`
@@ -167,6 +168,9 @@ func (n *Node) BuildStack() stk.Stack {
 	}
 	if n.ID != "" {
 		s.SetID(n.ID)
+	}
+	if n.Vfail {
+		s.SetValidityPolicy(func(...any) error { return errors.New("this stack's own validity policy fails") })
 	}
 	if n.Mutex {
 		s.SetMutex()
@@ -296,6 +300,9 @@ func (n *Node) Build() any {
 			}
 			return ptrChain(s, d)
 		}
+		if n.A == "alocal" {
+			return localStackAliasA(s)
+		}
 		return s
 	case "cond":
 		c := n.BuildCond()
@@ -324,6 +331,9 @@ func (n *Node) Build() any {
 			}
 			return ptrChain(c, d)
 		}
+		if n.A == "alocal" {
+			return localCondAliasA(c)
+		}
 		return c
 	case "zstack":
 		switch n.A {
@@ -351,6 +361,58 @@ func (n *Node) Build() any {
 // families may register further leaf kinds
 var extraBuild = map[string]func(*Node) any{}
 var extraCoq = map[string]func(*Node) string{}
+
+// Types declared in function scopes share their printed name ("main.Filter") with
+// other types of other scopes.  Pair A: a plain struct that the converters meet
+// FIRST (at start-up), then a Stack / Condition alias of the same name (node form
+// "alocal").  Pair B: the alias first, the plain struct later (awkward catalogue).
+func localStackAliasA(s stk.Stack) any { type Filter stk.Stack; return Filter(s) }
+func localPlainA() any                 { type Filter struct{ A int }; return Filter{1} }
+func localCondAliasA(c stk.Condition) any {
+	type Rule stk.Condition
+	return Rule(c)
+}
+func localPlainRuleA() any             { type Rule struct{ B string }; return Rule{"x"} }
+func localStackAliasB(s stk.Stack) any { type Selector stk.Stack; return Selector(s) }
+func localPlainB() any                 { type Selector struct{ A int }; return Selector{2} }
+func localCondAliasB(c stk.Condition) any {
+	type Clause stk.Condition
+	return Clause(c)
+}
+func localPlainClauseB() any { type Clause struct{ B string }; return Clause{"y"} }
+
+func init() {
+	stk.ConvertStack(localPlainA())
+	stk.ConvertCondition(localPlainA())
+	stk.ConvertStack(localPlainRuleA())
+	stk.ConvertCondition(localPlainRuleA())
+	stk.ConvertStack(localStackAliasB(stk.And().Push("b")))
+	stk.ConvertCondition(localCondAliasB(stk.Cond("k", stk.Eq, "v")))
+}
+
+var stackT, condT = reflect.TypeOf(stk.Stack{}), reflect.TypeOf(stk.Condition{})
+
+// unlocal converts a value of one of the function-local alias types back
+func unlocal(v any) (s stk.Stack, c stk.Condition, kind int) {
+	if v == nil {
+		return
+	}
+	rv := reflect.ValueOf(v)
+	if rv.Kind() != reflect.Struct {
+		return
+	}
+	switch rv.Type().Name() {
+	case "Filter", "Selector":
+		if rv.Type().ConvertibleTo(stackT) {
+			return rv.Convert(stackT).Interface().(stk.Stack), c, 1
+		}
+	case "Rule", "Clause":
+		if rv.Type().ConvertibleTo(condT) {
+			return s, rv.Convert(condT).Interface().(stk.Condition), 2
+		}
+	}
+	return
+}
 
 // ptrKind reads the node forms "pN" / "pNa": a chain of N (3..9) non-nil
 // pointers ending in the native instance / in the plain alias of it.
@@ -398,7 +460,7 @@ func coqAkind(a string) string {
 		return "AliasPtr" // the models do not tell pointer depths apart
 	}
 	switch a {
-	case "aval":
+	case "aval", "alocal":
 		return "AliasVal"
 	case "aptr", "pp", "ppa": // the models do not tell pointer depths apart
 		return "AliasPtr"
